@@ -196,6 +196,7 @@ func populate(ks ksrig.FullKeyStore, gens int) error {
 // Run is the C07 monitor.
 func Run(r *ev.Run) {
 	r.Rule = "one evaluation = one oracle evaluation: one blob scanned for known secrets, one relocated file loaded, one single-bit flip or single-byte value change read back, one keystore/back-end call with a hostile id or path checked for effects outside the root, one created file/directory mode checked. " +
+		"Ring-level key-state histories (v2, oracle a): per history three rings (key pairs, symmetric keys, keys with both) of ten harness-supplied keys each, every key walked along a random legal path (api.KeyStateTransitionValid) to one of the states pre-active, active (directly and through suspended), suspended, deactivated, compromised, destroyed by SetState from each state that allows it, destroyed by DestroyKey; then ExportKeyRings (private / public-only), ImportKeyRings into an empty keystore and back into the same one (overwrite), KeyBackuper.Export/Import; every Put / Get / stored object / bundle scanned for the material of all keys. " +
 		"Distinct classes: (format/configuration, oracle, key kind or storage operation, sink / file role / flipped region / hostile-id class). " +
 		"Flips: quick = every byte of every stored key ring and v1 key file, one bit per byte (bit index = (offset+seed) mod 8); thorough = all 8 bits. Byte values (v2 key rings, every offset): quick = value-1, value+1, value/2, each of 0x10..0x1f where the stored byte is 0x20, 0, 0x7f, 0x80, 0x81, 0xff (values equal to the stored byte skipped, duplicates removed, so the count depends on the stored bytes); thorough = all 255 other values (the directory store once more with the quick set through real file rewrites); classes of this sweep: (configuration, key kind, DER element of the changed byte, tag/length/content). Everything is a pure function of VERIF_SEED except key values, which are only compared after reading them back."
 	r.Assumptions = []string{
@@ -212,6 +213,7 @@ func Run(r *ev.Run) {
 		return
 	}
 	runSecrets(r)
+	runRingStates(r)
 	runBinding(r)
 	runTamper(r)
 	runConfinement(r)
@@ -226,6 +228,23 @@ func Run(r *ev.Run) {
 	r.RequireAtLeast("a_blobs_scanned_export_bundles", q(20, 400))
 	r.RequireAtLeast("a_secrets_known", q(500, 10000))
 	r.RequireAtLeast("a_public_keys_seen_in_written_blobs(positive control)", q(100, 2000))
+	r.RequireAtLeast("a2_histories", q(12, 120))
+	r.RequireAtLeast("a2_exports_done", q(30, 300))
+	r.RequireAtLeast("a2_export_bundles_scanned", q(30, 300))
+	r.RequireAtLeast("a2_imports_done", q(40, 400))
+	r.RequireAtLeast("a2_puts_scanned", q(1000, 10000))
+	r.RequireAtLeast("a2_puts_scanned_during_imports", q(150, 1500))
+	r.RequireAtLeast("a2_stored_objects_dumped", q(100, 1000))
+	r.RequireAtLeast("a2_secrets_searched", q(400, 4000))
+	r.RequireAtLeast("a2_secrets_searched_of_destroyed_keys", q(150, 1500))
+	for _, class := range []string{"pre-active", "active", "suspended", "deactivated", "compromised", "destroyed-by-SetState", "destroyed-by-DestroyKey"} {
+		r.RequireAtLeast("a2_keys_at_export_state="+class, q(30, 300))
+	}
+	r.RequireSetAtLeast("a2_key_classes_at_export", 21) // 3 key formats x 7 state classes
+	r.RequireSetAtLeast("a2_states_destroyed_from", 4)  // SetState from each of the 3 states that allow it + DestroyKey
+	r.RequireAtLeast("a2_source_keys_read_back_equal(positive control)", q(150, 1500))
+	r.RequireAtLeast("a2_imported_keys_read_back_equal(positive control)", q(150, 1500))
+	r.RequireAtLeast("a2_public_keys_seen_in_puts(positive control)", q(100, 1000))
 	r.RequireAtLeast("b_relocations_checked_v1", q(100, 100))
 	r.RequireAtLeast("b_relocations_checked_v2", q(100, 100))
 	r.RequireAtLeast("b_relocations_checked_v1_near_identical_ids", q(200, 200))
